@@ -218,3 +218,95 @@ package db
 //@   callsite bytes.Equal [compared-with-end] arg1 == skipEqual && skipEqual != nil
 //@   callsite bytes.Compare [compared-with-start] arg1 == abortLessThan && abortLessThan != nil
 //@   modifies *
+
+// ---------------------------------------------------------------- goleveldb.go: the LevelDB adapter (C18)
+// The LevelDB library itself is external. What the adapter adds is under contract: an empty key or a nil value
+// never reaches the store, keys and values are handed over as given, and the iterator wrapper positions and
+// bounds the library's cursor so that it enumerates [start, end) in the requested direction.
+//@ func (*GoLevelDB).Set(db, key, value) (err)
+//@   props C18
+//@   nosafety
+//@   requires db != nil
+//@   callsite leveldb.DB).Put [stored-as-given] len(key) > 0 && value != nil && arg1 == key && arg2 == value
+//@   ensures [empty-key-or-nil-value-never-stored] len(key) == 0 || value == nil ==> err != nil && calls("leveldb.DB).Put") == 0
+//@   modifies *
+//@ func (*GoLevelDB).SetSync(db, key, value) (err)
+//@   props C18
+//@   nosafety
+//@   requires db != nil
+//@   callsite leveldb.DB).Put [stored-as-given] len(key) > 0 && value != nil && arg1 == key && arg2 == value
+//@   ensures [empty-key-or-nil-value-never-stored] len(key) == 0 || value == nil ==> err != nil && calls("leveldb.DB).Put") == 0
+//@   modifies *
+//@ func (*GoLevelDB).Delete(db, key) (err)
+//@   props C18
+//@   nosafety
+//@   requires db != nil
+//@   callsite leveldb.DB).Delete [deleted-as-given] len(key) > 0 && arg1 == key
+//@   ensures [empty-key-refused] len(key) == 0 ==> err != nil && calls("leveldb.DB).Delete") == 0
+//@   modifies *
+//@ func (*GoLevelDB).DeleteSync(db, key) (err)
+//@   props C18
+//@   nosafety
+//@   requires db != nil
+//@   callsite leveldb.DB).Delete [deleted-as-given] len(key) > 0 && arg1 == key
+//@   ensures [empty-key-refused] len(key) == 0 ==> err != nil && calls("leveldb.DB).Delete") == 0
+//@   modifies *
+//@ func (*GoLevelDB).Get(db, key) (v, err)
+//@   props C18
+//@   nosafety
+//@   requires db != nil
+//@   callsite leveldb.DB).Get [read-as-given] len(key) > 0 && arg1 == key
+//@   ensures [empty-key-refused] len(key) == 0 ==> err != nil && v == nil
+//@   ensures [value-as-read] err == nil && v != nil ==> calls("leveldb.DB).Get") == 1 && v == result("leveldb.DB).Get@1", 0)
+//@   modifies *
+
+// the iterators: empty (non-nil) bounds are refused; the library's range cursor over [start, end) is wrapped for the direction asked
+//@ func (*GoLevelDB).Iterator(db, start, end) (it, err)
+//@   props C18
+//@   nosafety
+//@   requires db != nil
+//@   callsite newGoLevelDBIterator [forward-over-the-bounds-given] arg1 == start && arg2 == end && !arg3 && arg0 == result("leveldb.DB).NewIterator@1")
+//@   ensures [empty-bound-refused] (start != nil && len(start) == 0) || (end != nil && len(end) == 0) ==> err != nil && calls("newGoLevelDBIterator") == 0
+//@   modifies *
+//@ func (*GoLevelDB).ReverseIterator(db, start, end) (it, err)
+//@   props C18
+//@   nosafety
+//@   requires db != nil
+//@   callsite newGoLevelDBIterator [reverse-over-the-bounds-given] arg1 == start && arg2 == end && arg3 && arg0 == result("leveldb.DB).NewIterator@1")
+//@   ensures [empty-bound-refused] (start != nil && len(start) == 0) || (end != nil && len(end) == 0) ==> err != nil && calls("newGoLevelDBIterator") == 0
+//@   modifies *
+
+// positioning: forward at the first key >= start (or the first key); reverse at the last key < end — the library's
+// Seek(end) stands on the first key >= end, one step back from there; when nothing is >= end (or end is open) at the last key
+//@ func newGoLevelDBIterator(source, start, end, isReverse) (it)
+//@   props C18
+//@   nosafety
+//@   callsite ).First$ [forward-open-start-at-first] !isReverse && start == nil
+//@   callsite ).Seek$@1 [reverse-seeks-the-end-bound] isReverse && end != nil && arg0 == end
+//@   callsite ).Seek$@2 [forward-seeks-the-start-bound] !isReverse && start != nil && arg0 == start
+//@   callsite ).Prev$ [one-step-back-from-a-key-at-or-after-end] isReverse && end != nil && result(").Seek$@1") && ord(end) <= ord(result(").Key$@1"))
+//@   callsite ).Last$@1 [reverse-open-end-at-last] isReverse && end == nil
+//@   callsite ).Last$@2 [reverse-nothing-at-or-after-end-at-last] isReverse && end != nil && !result(").Seek$@1")
+//@   ensures [wrapped-as-given] it != nil && fresh(it) && it.source == source && it.start == start && it.end == end && it.isReverse == isReverse && !it.isInvalid
+//@   ensures [reverse-never-stands-on-end] isReverse && end != nil && calls(").Seek$@1") == 1 && result(").Seek$@1") && ord(end) <= ord(result(").Key$@1")) ==> calls(").Prev$") == 1
+//@   modifies *
+
+// Valid: once invalid, always invalid; a valid forward cursor stands below end, a valid reverse cursor at or above start
+//@ func (*goLevelDBIterator).Valid(itr) (ok)
+//@   props C18
+//@   nosafety
+//@   requires itr != nil && itr.source != nil
+//@   ensures [once-invalid-forever-invalid] old(itr.isInvalid) ==> !ok && itr.isInvalid
+//@   ensures [invalidity-latched] !ok ==> itr.isInvalid
+//@   ensures [forward-below-end] ok && !itr.isReverse && itr.end != nil ==> calls(").Key$") == 1 && ord(result(").Key$@1")) < ord(itr.end)
+//@   ensures [reverse-at-or-above-start] ok && itr.isReverse && itr.start != nil ==> calls(").Key$") == 1 && ord(result(").Key$@1")) >= ord(itr.start)
+//@   ensures [source-consulted] ok ==> calls(").Valid$") == 1 && result(").Valid$@1")
+//@   modifies *
+
+//@ func (*goLevelDBIterator).Next(itr)
+//@   props C18
+//@   nosafety
+//@   requires itr != nil && itr.source != nil
+//@   callsite ).Prev$ [reverse-moves-backwards] itr.isReverse
+//@   callsite Iterator).Next$ [forward-moves-forwards] !itr.isReverse
+//@   modifies *
